@@ -201,7 +201,7 @@ theorem phase1Revs_snoc (h : Hist) (r : Rev) (K N : List (String × Id)) (hk : k
 
 /-! ## what the view without labels depends on -/
 
-def strip (x : LRev) : LRev := { x with labels := [], origLabels := [] }
+def strip (x : LRev) : LRev := { x with labels := [] }
 
 theorem nextrev_congr (M M' : LMap) (hr : M.revs.map strip = M'.revs.map strip) (i : Id) :
     M.nextrev i = M'.nextrev i := by
@@ -478,6 +478,64 @@ theorem mem_dedupe (l : List String) (x : String) : x ∈ dedupe l ↔ x ∈ l :
         · exact Or.inr ⟨h, by simpa using hx⟩
 
 
+/-! ## `_add_branches` reads everything but the current label sets -/
+
+def addsOf (bm : Id → List Id) (R : List LRev) : List (Id × List String) :=
+  (R.filter (fun r => r.origLabels ≠ [])).flatMap (fun r => (bm r.id).map (fun x => (x, r.origLabels)))
+
+def relabel (adds : List (Id × List String)) (r : LRev) : LRev :=
+  { r with labels := dedupe (r.origLabels ++ (adds.filter (·.1 == r.id)).flatMap (·.2)) }
+
+theorem addBranches_revs (M : LMap) :
+    (addBranches M).revs = M.revs.map (relabel (addsOf (branchMembers M) M.revs)) := rfl
+
+theorem addsOf_strip (bm : Id → List Id) (R : List LRev) : addsOf bm (R.map strip) = addsOf bm R := by
+  unfold addsOf
+  rw [List.filter_map, List.flatMap_map]
+  rfl
+
+theorem relabel_strip (adds : List (Id × List String)) (R : List LRev) :
+    (R.map strip).map (relabel adds) = R.map (relabel adds) := by
+  rw [List.map_map]
+  rfl
+
+theorem walkDownLabels_congr (M M' : LMap) (han : M.allNextrev = M'.allNextrev) (hd : M.downOf = M'.downOf) :
+    ∀ fuel p, walkDownLabels M fuel p = walkDownLabels M' fuel p := by
+  intro fuel
+  induction fuel with
+  | zero => intro p; rfl
+  | succ k ih =>
+    intro p
+    simp only [walkDownLabels, isRealBranchPoint, isMergePoint, han, hd, ih]
+    first | rfl | (split <;> first | rfl | (split <;> rfl))
+
+theorem addBranches_congr (M M' : LMap) (h : M.revs.map strip = M'.revs.map strip) :
+    (addBranches M).revs = (addBranches M').revs := by
+  have hcore := core_of_strip h
+  have hn : M.nextrev = M'.nextrev := funext (nextrev_congr M M' h)
+  have han : M.allNextrev = M'.allNextrev := funext (allNextrev_congr M M' h)
+  have hd : M.downOf = M'.downOf := downOf_core hcore
+  have hi : M.ids = M'.ids := ids_core hcore
+  have hl : M.revs.length = M'.revs.length := by
+    have := congrArg List.length h
+    simpa using this
+  have hb : branchMembers M = branchMembers M' := by
+    funext i
+    unfold branchMembers LMap.descendantsNoDeps LMap.closure
+    have hw : walkDownLabels M = walkDownLabels M' :=
+      funext fun f => funext fun p => walkDownLabels_congr M M' han hd f p
+    rw [hn, hi, hl, hw]
+  rw [addBranches_revs, addBranches_revs, hb, ← addsOf_strip _ M.revs, ← relabel_strip _ M.revs, h,
+      addsOf_strip, relabel_strip]
+
+theorem view_eq (M M' : LMap) (hr : M.revs = M'.revs)
+    (hk : M.labelKeys = M'.labelKeys) (hh : M.heads = M'.heads) (hrh : M.realHeads = M'.realHeads)
+    (hb : M.bases = M'.bases) (hrb : M.realBases = M'.realBases) : view M = view M' := by
+  have hn : M.nextrev = M'.nextrev := by funext i; unfold LMap.nextrev; rw [hr]
+  have han : M.allNextrev = M'.allNextrev := by funext i; unfold LMap.allNextrev; rw [hr]
+  have hv : revView M = revView M' := by funext x; simp [revView, hn, han]
+  simp only [view, hr, hk, hh, hrh, hb, hrb, hv]
+
 /-! ## assembling `addRevision m r` against `load (h ++ [r])` -/
 
 theorem forM_cons_eq (f : Rev → Except Err Unit) (x : Rev) (L : List Rev) :
@@ -536,42 +594,35 @@ theorem resolveDeps_mem (h : Hist) (deps : List String) (i : Id)
   obtain ⟨d, _, hd⟩ := hi
   exact lookup_mem h d i hd
 
-def relabelOld (m : LMap) (r : Rev) : List LRev :=
-  m.revs.map (fun x => if x.id ∈ labelTargets m r then { x with labels := dedupe (x.labels ++ r.labels) } else x)
-
 def newRev0 (m : LMap) (r : Rev) (K' : List (String × Id)) : LRev :=
   { id := r.id, down := r.down, rdeps := resolveDeps (m.ids ++ [r.id]) K' r.deps, ndeps := [], origLabels := r.labels,
-    labels := dedupe r.labels }
+    labels := r.labels }
 
 def mapX (m : LMap) (r : Rev) (K' : List (String × Id)) : LMap :=
-  { m with revs := relabelOld m r ++ [newRev0 m r K'], labelKeys := K' }
+  { m with revs := m.revs ++ [newRev0 m r K'], labelKeys := K' }
 
 def newRev1 (m : LMap) (r : Rev) (K' : List (String × Id)) : LRev :=
   { newRev0 m r K' with ndeps := normalizeOne (mapX m r K') (newRev0 m r K') }
 
+/-- the map after `_normalize_depends_on`, before the labels are recomputed -/
+def mapY (m : LMap) (r : Rev) (K' : List (String × Id)) : LMap :=
+  { mapX m r K' with revs := m.revs ++ [newRev1 m r K'] }
+
 theorem addCore_revs (m : LMap) (r : Rev) (K' : List (String × Id)) :
-    (addCore m r K').revs = relabelOld m r ++ [newRev1 m r K'] := rfl
+    (addCore m r K').revs = (addBranches (mapY m r K')).revs := rfl
 theorem addCore_labelKeys (m : LMap) (r : Rev) (K' : List (String × Id)) : (addCore m r K').labelKeys = K' := rfl
 theorem addCore_heads (m : LMap) (r : Rev) (K' : List (String × Id)) :
     (addCore m r K').heads =
-      if (nxg (·.down) (relabelOld m r ++ [newRev1 m r K']) r.id).isEmpty
+      if (nxg (·.down) (m.revs ++ [newRev1 m r K']) r.id).isEmpty
       then (m.heads.filter (fun h => !(h ∈ r.down || h == r.id))) ++ [r.id] else m.heads := rfl
 theorem addCore_realHeads (m : LMap) (r : Rev) (K' : List (String × Id)) :
     (addCore m r K').realHeads =
-      if (nxg LRev.allDown (relabelOld m r ++ [newRev1 m r K']) r.id).isEmpty
+      if (nxg LRev.allDown (m.revs ++ [newRev1 m r K']) r.id).isEmpty
       then (m.realHeads.filter (fun h => !(h ∈ (newRev1 m r K').allDown || h == r.id))) ++ [r.id] else m.realHeads := rfl
 theorem addCore_bases (m : LMap) (r : Rev) (K' : List (String × Id)) :
     (addCore m r K').bases = if r.down.isEmpty then m.bases ++ [r.id] else m.bases := rfl
 theorem addCore_realBases (m : LMap) (r : Rev) (K' : List (String × Id)) :
     (addCore m r K').realBases = if r.down.isEmpty ∧ r.deps.isEmpty then m.realBases ++ [r.id] else m.realBases := rfl
-
-theorem relabelOld_strip (m : LMap) (r : Rev) : (relabelOld m r).map strip = m.revs.map strip := by
-  unfold relabelOld
-  rw [List.map_map]
-  apply List.map_congr_left
-  intro x _
-  simp only [Function.comp_def]
-  split <;> rfl
 
 theorem phase1Map_heads (h : Hist) (K : List (String × Id)) :
     (phase1Map h K).heads = headsG (·.down) (phase1Revs h K) := rfl
@@ -589,6 +640,7 @@ def withN (M : LMap) (x : LRev) : LRev := { x with ndeps := normalizeOne M x }
 theorem loaded_shape (h : Hist) (m : LMap) (hl : load h = .ok m) :
     h.forM checkRev = .ok () ∧ keysMissing h (pairs h) = false ∧
     mapBranchLabels (h.map (·.id)) (h.filter (fun r => r.labels ≠ [])) [] = .ok (pairs h) ∧
+    m.revs = (addBranches (withNorm {} (phase1Map h (pairs h)))).revs ∧
     m.revs.map strip = ((phase1Revs h (pairs h)).map (withN (phase1Map h (pairs h)))).map strip ∧
     m.labelKeys = pairs h ∧ m.heads = (phase1Map h (pairs h)).heads ∧ m.realHeads = (phase1Map h (pairs h)).realHeads ∧
     m.bases = (phase1Map h (pairs h)).bases ∧ m.realBases = (phase1Map h (pairs h)).realBases := by
@@ -601,7 +653,7 @@ theorem loaded_shape (h : Hist) (m : LMap) (hl : load h = .ok m) :
   subst hKe
   subst hm1
   subst hm
-  refine ⟨hchk, hmiss, hK, ?_, rfl, rfl, rfl, rfl, rfl⟩
+  refine ⟨hchk, hmiss, hK, rfl, ?_, rfl, rfl, rfl, rfl, rfl⟩
   rw [addBranches_strip, withNorm_revs]
   rfl
 
@@ -620,12 +672,12 @@ theorem ids_of_strip (m : LMap) (R : List LRev) (M : LMap)
   rw [e m.revs, h]
   simp [strip, withN, Function.comp_def]
 
-theorem incremental_noLabels (h : Hist) (r : Rev) (m mf : LMap) (hl : load h = .ok m)
+theorem incremental_view (h : Hist) (r : Rev) (m mf : LMap) (hl : load h = .ok m)
     (hf : load (h ++ [r]) = .ok mf) (hid : hasKey m r.id = false) (hdeps : ∀ d ∈ r.deps, hasKey m d = true) :
     addRevision m r = .ok (addCore m r (pairs (h ++ [r]))) ∧
-      (view (addCore m r (pairs (h ++ [r])))).noLabels = (view mf).noLabels := by
-  obtain ⟨hchk, hmiss, hK, hrevs, hlk, hheads, hrheads, hbases, hrbases⟩ := loaded_shape h m hl
-  obtain ⟨hchk', hmiss', hK', hrevs', hlk', hheads', hrheads', hbases', hrbases'⟩ := loaded_shape (h ++ [r]) mf hf
+      view (addCore m r (pairs (h ++ [r]))) = view mf := by
+  obtain ⟨hchk, hmiss, hK, _, hrevs, hlk, hheads, hrheads, hbases, hrbases⟩ := loaded_shape h m hl
+  obtain ⟨hchk', hmiss', hK', hmfrevs, hrevs', hlk', hheads', hrheads', hbases', hrbases'⟩ := loaded_shape (h ++ [r]) mf hf
   obtain ⟨hidI, hidK⟩ := hasKey_false m r.id hid
   rw [hlk] at hidK
   have hmids : m.ids = h.map (·.id) := by
@@ -714,16 +766,17 @@ theorem incremental_noLabels (h : Hist) (r : Rev) (m mf : LMap) (hl : load h = .
     rw [this]
     simp [core, withN, Function.comp_def, R]
   have hcoreX : (mapX m r (pairs (h ++ [r]))).revs.map core = (phase1Map (h ++ [r]) (pairs (h ++ [r]))).revs.map core := by
-    have h1 : (relabelOld m r).map core = m.revs.map core := core_of_strip (relabelOld_strip m r)
-    show (relabelOld m r ++ [newRev0 m r (pairs (h ++ [r]))]).map core = _
-    rw [hm1', List.map_append, List.map_append, h1, hcore_m]
+    show (m.revs ++ [newRev0 m r (pairs (h ++ [r]))]).map core = _
+    rw [hm1', List.map_append, List.map_append, hcore_m]
     congr 1
     simp [core, newRev0, n, p1, hmids]
   have hnd_new : normalizeOne (mapX m r (pairs (h ++ [r]))) (newRev0 m r (pairs (h ++ [r]))) =
       normalizeOne (phase1Map (h ++ [r]) (pairs (h ++ [r]))) n :=
     normalizeOne_congr hcoreX _ _ rfl (by simp [newRev0, n, p1, hmids])
-  have hstrip : (addCore m r (pairs (h ++ [r]))).revs.map strip = mf.revs.map strip := by
-    rw [addCore_revs, hrevs', hsn, List.map_append, List.map_append, List.map_append, relabelOld_strip, hrevs]
+  have hstrip : (mapY m r (pairs (h ++ [r]))).revs.map strip =
+      ((R ++ [n]).map (withN (phase1Map (h ++ [r]) (pairs (h ++ [r]))))).map strip := by
+    show (m.revs ++ [newRev1 m r (pairs (h ++ [r]))]).map strip = _
+    rw [List.map_append, List.map_append, List.map_append, hrevs]
     congr 1
     · congr 1
       apply List.map_congr_left
@@ -733,18 +786,24 @@ theorem incremental_noLabels (h : Hist) (r : Rev) (m mf : LMap) (hl : load h = .
     · simp only [List.map_cons, List.map_nil, List.cons.injEq, and_true]
       simp only [newRev1, hnd_new, withN]
       simp [strip, newRev0, n, p1, hmids]
-  have hcore_add : (relabelOld m r ++ [newRev1 m r (pairs (h ++ [r]))]).map core = (R ++ [n]).map core := by
+  have hcore_add : (m.revs ++ [newRev1 m r (pairs (h ++ [r]))]).map core = (R ++ [n]).map core := by
     have h1 := core_of_strip hstrip
-    rw [addCore_revs] at h1
-    have h2 := core_of_strip hrevs'
-    rw [h1, h2, hsn]
+    rw [show (mapY m r (pairs (h ++ [r]))).revs = m.revs ++ [newRev1 m r (pairs (h ++ [r]))] from rfl] at h1
+    rw [h1]
     simp [core, withN, Function.comp_def, R, n]
+  have hrevs_eq : (addCore m r (pairs (h ++ [r]))).revs = mf.revs := by
+    rw [addCore_revs, hmfrevs]
+    apply addBranches_congr
+    rw [hstrip, withNorm_revs]
+    show _ = ((phase1Revs (h ++ [r]) (pairs (h ++ [r]))).map _).map strip
+    rw [hsn]
+    rfl
   have hn_down : n.down = r.down := rfl
   have hn_allDown : n.allDown = dedupe (r.down ++ resolveDeps (h.map (·.id)) (pairs h) r.deps) := by
     simp [n, p1, LRev.allDown, hrd]
   have hnew1_allDown : (newRev1 m r (pairs (h ++ [r]))).allDown = n.allDown := by
     simp [newRev1, newRev0, n, p1, LRev.allDown, hmids]
-  apply view_noLabels_eq _ _ hstrip
+  apply view_eq _ _ hrevs_eq
   · rw [addCore_labelKeys, hlk']
   · -- heads
     rw [addCore_heads, hheads', phase1Map_heads, hsn, nxg_down_core hcore_add]
@@ -789,53 +848,5 @@ theorem incremental_noLabels (h : Hist) (r : Rev) (m mf : LMap) (hl : load h = .
     simp only [phase1Map, List.filter_append, List.map_append]
     by_cases hb1 : r.down = [] <;> by_cases hb2 : r.deps = [] <;> simp [List.filter, hb1, hb2]
 
-
-/-! ## histories without branch labels: the full views coincide -/
-
-theorem labels_nil_of_load (h : Hist) (m : LMap) (hl : load h = .ok m) (hn : ∀ x ∈ h, x.labels = []) :
-    ∀ y ∈ m.revs, y.labels = [] := by
-  obtain ⟨m1, hp1, _, hm⟩ := load_inv h m hl
-  obtain ⟨K, _, _, _, hm1⟩ := loadPhase1_inv h m1 hp1
-  subst hm1
-  subst hm
-  have horig : ∀ y ∈ (withNorm {} (phase1Map h K)).revs, y.origLabels = [] := by
-    intro y hy
-    rw [withNorm_revs, List.mem_map] at hy
-    obtain ⟨z, hz, rfl⟩ := hy
-    have hz' : z ∈ phase1Revs h K := hz
-    rw [phase1Revs_eq, List.mem_map] at hz'
-    obtain ⟨r0, hr0, rfl⟩ := hz'
-    exact hn r0 hr0
-  intro y hy
-  unfold addBranches at hy
-  simp only [List.mem_map] at hy
-  obtain ⟨z, hz, rfl⟩ := hy
-  have hfil : (withNorm {} (phase1Map h K)).revs.filter (fun r => !decide (r.origLabels = [])) = [] := by
-    rw [List.filter_eq_nil_iff]
-    intro a ha
-    simp [horig a ha]
-  simp [hfil, horig z hz, dedupe]
-
-theorem view_noLabels_self (X : LMap) (h : ∀ y ∈ X.revs, y.labels = []) : (view X).noLabels = view X := by
-  unfold View.noLabels view
-  simp only [List.map_map]
-  congr 1
-  apply List.map_congr_left
-  intro y hy
-  simp [revView, h y hy]
-
-theorem addCore_labels_nil (m : LMap) (r : Rev) (K' : List (String × Id)) (hm : ∀ y ∈ m.revs, y.labels = [])
-    (hr : r.labels = []) : ∀ y ∈ (addCore m r K').revs, y.labels = [] := by
-  intro y hy
-  rw [addCore_revs, List.mem_append] at hy
-  rcases hy with hy | hy
-  · unfold relabelOld at hy
-    rw [List.mem_map] at hy
-    obtain ⟨z, hz, rfl⟩ := hy
-    have : labelTargets m r = [] := by simp [labelTargets, hr]
-    simp [this, hm z hz]
-  · simp at hy
-    subst hy
-    simp [newRev1, newRev0, hr, dedupe]
 
 end Lemmas.Gen
